@@ -816,6 +816,9 @@ func (w *feWalker) eval(st *feState, v ssa.Value) (constant.Value, bool) {
 				return c, true
 			}
 		}
+		if c, ok := w.evalSliceSearch(st, x); ok {
+			return c, true
+		}
 		return w.evalCall(st, x)
 	default:
 		if w.Hook != nil {
@@ -1058,6 +1061,83 @@ func (w *feWalker) constTableLookup(st *feState, lk *ssa.Lookup) (val constant.V
 		return nil, true, true // present, value is not a constant
 	}
 	return e, true, true
+}
+
+// evalSliceSearch folds slices.Contains / slices.Index over a slice whose content the path
+// determines: a constant package-level table or a local argument list.
+func (w *feWalker) evalSliceSearch(st *feState, c *ssa.Call) (constant.Value, bool) {
+	callee := c.Common().StaticCallee()
+	if callee == nil || len(c.Call.Args) != 2 {
+		return nil, false
+	}
+	o := callee
+	if o.Origin() != nil {
+		o = o.Origin()
+	}
+	if o.Pkg == nil || o.Pkg.Pkg.Path() != "slices" || (o.Name() != "Contains" && o.Name() != "Index") {
+		return nil, false
+	}
+	needle, ok := w.eval(st, c.Call.Args[1])
+	if !ok {
+		return nil, false
+	}
+	var elems []constant.Value
+	if al, n, ok := w.localArray(st, c.Call.Args[0]); ok {
+		for i := int64(0); i < n; i++ {
+			ev, has := st.arr[feArrKey{al, i}]
+			if !has || !ev.Known {
+				return nil, false
+			}
+			elems = append(elems, ev.C)
+		}
+	} else {
+		v := c.Call.Args[0]
+		var g *ssa.Global
+		for d := 0; d < 5 && v != nil; d++ {
+			if u, ok := v.(*ssa.UnOp); ok {
+				if gg, ok := u.X.(*ssa.Global); ok {
+					g = gg
+					break
+				}
+			}
+			nv := w.evalVal(st, v).V
+			if nv == nil || nv == v {
+				break
+			}
+			v = nv
+		}
+		if g == nil {
+			return nil, false
+		}
+		if w.P == nil {
+			w.P = curProg
+		}
+		if w.P == nil {
+			return nil, false
+		}
+		tbl, _, ok := w.P.constArray(g)
+		if !ok {
+			return nil, false
+		}
+		for i := int64(0); i < int64(len(tbl)); i++ {
+			ev, has := tbl[i]
+			if !has {
+				return nil, false // sparse literal: not a plain list
+			}
+			elems = append(elems, ev)
+		}
+	}
+	idx := int64(-1)
+	for i, e := range elems {
+		if e.Kind() == needle.Kind() && constant.Compare(e, token.EQL, needle) {
+			idx = int64(i)
+			break
+		}
+	}
+	if o.Name() == "Contains" {
+		return constant.MakeBool(idx >= 0), true
+	}
+	return constant.MakeInt64(idx), true
 }
 
 // localArray resolves a slice value to the local array cell it covers entirely (`a[:]` of a
